@@ -268,7 +268,7 @@ def entry_chain(chk, facts):
     rule = "C01.ENTRY"
     chain = [
         (CORE + "Authorizer::is_authorized", ["Authorizer::is_authorized_core", "PartialResponse::concretize"]),
-        (CORE + "Authorizer::is_authorized_core", ["Authorizer::is_authorized_core_internal", "Evaluator::<'e>::new"]),
+        (CORE + "Authorizer::is_authorized_core", ["Authorizer::is_authorized_core_internal", "Evaluator::new"]),
         (PR + "::concretize", ["Into<U>>::into"]),
         ("cedar_policy::api::Authorizer::is_authorized", ["cedar_policy_core::authorizer::Authorizer::is_authorized"]),
     ]
